@@ -1419,8 +1419,12 @@ impl<R: std::io::Read> Decoder<R> {
             Some(0) => return Ok(None),
             Some(remaining) => FrameHeader::read(crc16_reader.by_ref(), self.blocks.streaminfo())
                 .and_then(|header| {
-                // only the last block in a stream may contain <= 14 samples
                 let block_size = u16::from(header.block_size);
+                if u64::from(block_size) > remaining {
+                    // the stream holds more samples than STREAMINFO declares
+                    return Err(Error::TooManySamples);
+                }
+                // only the last block in a stream may contain <= 14 samples
                 (u64::from(block_size) == remaining || block_size > 14)
                     .then_some(header)
                     .ok_or(Error::ShortBlock)
